@@ -202,7 +202,10 @@ class Driver:
 
     def product_listing(self):
         if self.fsname in ("local", "file"):
-            return snapshot(self.url.replace("file://", ""))
+            d = self.url.replace("file://", "")
+            out = snapshot(d)
+            out["."] = str(os.stat(d).st_mtime_ns)   # an entry created and removed again inside the directory leaves this trace
+            return out
         if self.fsname == "memory":
             import fsspec
 
